@@ -194,6 +194,15 @@ def _take_best(col, rule="C15.R3"):
     col.add(rule, f"{q}#window-starts-at-this-call's-starting-point", ok, sx.loc(lens[0]) if lens else sx.loc(sx.fn),
             "the take_best window starts at the row logged as this call's starting point: its index is taken after that row was appended",
             f"start-point logging at {[sx.loc(s_) for s_ in start]}, log length read at {[sx.loc(n) for n in lens]}")
+    # the helper that logs the starting point does so on every path (not only when it also prints)
+    if repo.has_method("Optimize", "_add_starting_point_to_log_and_print") and any(
+            cfg.nodes[s_].ast is not None and "_add_starting_point_to_log_and_print" in A.src(cfg.nodes[s_].ast) for s_ in start):
+        hx = octx(repo, "Optimize", "_add_starting_point_to_log_and_print")
+        logs = [ev.nid for ev, m in hx.calls_some(("call", ("attr", S.SELF, S.V("m", lambda t: t in ("tag", "add_point_to_log"))), S.ANY, S.ANY))]
+        okh = bool(logs) and hx.cfg.must_pass(hx.cfg.ENTRY, hx.cfg.EXIT, logs)
+        col.add(rule, "Optimize._add_starting_point_to_log_and_print#logs-on-every-path", okh, hx.loc(hx.fn),
+                "the starting point is logged whatever the verbosity: the take_best window and the restore point rely on that row",
+                "a path reaches the end without tag()/add_point_to_log()" if not okh else "", positive=bool(logs) and not okh)
     rl = [(ev, m) for ev, m in sx.calls_some(("call", ("attr", S.SELF, "reload"), S.V("a"), S.V("k")))]
     if len(rl) != 1:
         col.fail(rule, f"{q}#take-best-reload", sx.loc(sx.fn), "step reloads the best row once", f"{len(rl)} reload calls")
@@ -413,3 +422,9 @@ def check(col: Collector):
     with col.rule():
         shared(col, "C15.R5", [c10._limits], select=lambda o: construct_tag(o) in ("trial-equals-commit", "both-limit-sides"),
                why="the log row reads the merit function's last evaluation next to the committed knobs")
+    # round 7: the residuals of a row are taken against target values read at that row's point
+    from . import c09 as _c09
+    with col.rule():
+        shared(col, "C15.R7", [_c09._target_values_stay_as_given], select=lambda o: "read-after-the-actions" in o.construct,
+               why="a reference-valued target read before the knobs are written belongs to the previously evaluated point: the logged "
+                   "penalty is not reproduced by evaluating the logged knobs")
